@@ -29,7 +29,8 @@ inductive Expr where
   | ci (s : Str)                                  -- CIString
   | range (a b : CP)                              -- Range
   | ident (name : String) (tag : Option String)   -- Identifier
-  | rule (name : String) (mod : Nat) (body : Expr) -- a Rule object embedded in a tree (built-ins)
+  | rule (name : String) (mod : Nat) (selfMap : Bool) (body : Expr)
+      -- a Rule object embedded in a tree (built-ins); `selfMap`: its `with_children` returns `self`
   | seq (es : List Expr)                          -- Sequence
   | choice (es : List Expr)                       -- Choice
   | opt (e : Expr)                                -- Optional
